@@ -162,6 +162,9 @@ def one_fit(case, ctx, rng, cfg, st, kind, n, N, rows, bases, run_i):
         elif e["type"] == "cbg_call" and cur is not None:
             a = e["args"]
             cur.append((a[1], a[2], a[3] if len(a) > 3 else e["kwargs"].get("bases_batch")))
+    if not any(e["type"] == "cbg_call" for e in log) and any(e["type"] == "cb" and e["event"] == "batch_end" for e in log):
+        ctx.count("batches_not_observable_at_the_public_boundary")  # training no longer calls compute_batch_gradients
+        return
     if len(epochs) != cfg["epochs"]:
         ctx.violation("epoch-count", f"{len(epochs)} epochs ran, {cfg['epochs']} requested", tags=tags, witness=wit)
     pos, neg_req = cfg["pos"], (cfg["neg"] if cfg["neg"] else cfg["pos"])
